@@ -86,6 +86,18 @@ func (e *Entity) primaryIdentity() *Identity {
 	return firstIdentity
 }
 
+// keyExpired reports whether the key pk, whose validity period is given by its
+// self-signature or binding signature sig, has expired at the given time. The
+// validity period counts from the creation time of the key, and a period of
+// zero means that the key does not expire. See RFC 4880, section 5.2.3.6.
+func keyExpired(pk *packet.PublicKey, sig *packet.Signature, now time.Time) bool {
+	if sig.KeyLifetimeSecs == nil || *sig.KeyLifetimeSecs == 0 {
+		return false
+	}
+	expiry := pk.CreationTime.Add(time.Duration(*sig.KeyLifetimeSecs) * time.Second)
+	return now.After(expiry)
+}
+
 // encryptionKey returns the best candidate Key for encrypting a message to the
 // given Entity.
 func (e *Entity) encryptionKey(now time.Time) (Key, bool) {
@@ -97,7 +109,7 @@ func (e *Entity) encryptionKey(now time.Time) (Key, bool) {
 		if subkey.Sig.FlagsValid &&
 			subkey.Sig.FlagEncryptCommunications &&
 			subkey.PublicKey.PubKeyAlgo.CanEncrypt() &&
-			!subkey.Sig.KeyExpired(now) &&
+			!keyExpired(subkey.PublicKey, subkey.Sig, now) &&
 			(maxTime.IsZero() || subkey.Sig.CreationTime.After(maxTime)) {
 			candidateSubkey = i
 			maxTime = subkey.Sig.CreationTime
@@ -116,7 +128,7 @@ func (e *Entity) encryptionKey(now time.Time) (Key, bool) {
 	i := e.primaryIdentity()
 	if (!i.SelfSignature.FlagsValid || i.SelfSignature.FlagEncryptCommunications) &&
 		e.PrimaryKey.PubKeyAlgo.CanEncrypt() &&
-		!i.SelfSignature.KeyExpired(now) {
+		!keyExpired(e.PrimaryKey, i.SelfSignature, now) {
 		return Key{e, e.PrimaryKey, e.PrivateKey, i.SelfSignature}, true
 	}
 
@@ -133,7 +145,7 @@ func (e *Entity) signingKey(now time.Time) (Key, bool) {
 		if subkey.Sig.FlagsValid &&
 			subkey.Sig.FlagSign &&
 			subkey.PublicKey.PubKeyAlgo.CanSign() &&
-			!subkey.Sig.KeyExpired(now) {
+			!keyExpired(subkey.PublicKey, subkey.Sig, now) {
 			candidateSubkey = i
 			break
 		}
@@ -148,7 +160,7 @@ func (e *Entity) signingKey(now time.Time) (Key, bool) {
 	// with the primary key.
 	i := e.primaryIdentity()
 	if (!i.SelfSignature.FlagsValid || i.SelfSignature.FlagSign) &&
-		!i.SelfSignature.KeyExpired(now) {
+		!keyExpired(e.PrimaryKey, i.SelfSignature, now) {
 		return Key{e, e.PrimaryKey, e.PrivateKey, i.SelfSignature}, true
 	}
 
